@@ -270,13 +270,15 @@ class CachedStore(Entity):
         # sorted(): _dirty_keys is a set[str]; its iteration order depends on the
         # per-process string hash seed and would make the write order irreproducible.
         for key in sorted(self._dirty_keys):
-            if key in self._cache:
-                value = self._cache[key]
-                yield from self._backing_store.put(key, value)
-                # Keep the key dirty if it was rewritten while the write was in flight
-                if key not in self._cache or self._cache[key] is value:
-                    self._dirty_keys.discard(key)
-                self._writebacks += 1
+            if key not in self._dirty_keys or key not in self._cache:
+                continue  # written back or deleted while an earlier key was flushed
+            # Pay the write latency first and write whatever is cached once it has
+            # elapsed. Sending the value captured *before* the wait would let this
+            # write land after - and overwrite - a newer value that eviction or
+            # invalidate() wrote back synchronously in the meantime (or resurrect
+            # a key that was deleted in the meantime).
+            yield self._backing_store.write_latency
+            if self._write_back_if_dirty(key):
                 flushed += 1
         return flushed
 
@@ -299,12 +301,18 @@ class CachedStore(Entity):
 
         self._cache[key] = value
 
-    def _write_back_if_dirty(self, key: str) -> None:
-        """Write a dirty entry to the backing store before it leaves the cache."""
+    def _write_back_if_dirty(self, key: str) -> bool:
+        """Write a dirty entry to the backing store, e.g. before it leaves the cache.
+
+        Returns:
+            True if the entry was dirty and has been written.
+        """
         if key in self._dirty_keys and key in self._cache:
             self._backing_store.put_sync(key, self._cache[key])
             self._dirty_keys.discard(key)
             self._writebacks += 1
+            return True
+        return False
 
     def _cache_remove(self, key: str) -> None:
         """Remove an entry from cache."""
